@@ -19,10 +19,15 @@ META = dict(
           "(d/dt R_FM = [w]x R_FM, d/dt p_FM = v), HDot_FM = d/dt H_FM, qdotdot = d/dt qdot = N udot + NDot u, NInv N = 1, the transposed multiplications are "
           "adjoint; forward and reversed mobilizers. Proved over the reals (z3 QF_NRA). NOT decided: the recursion over the multibody tree (body velocities "
           "V_GB, station Jacobians, across-tree composition calcJointIndependentKinematicsPos/Vel), frames X_PF/X_BM, LineOrientation/FreeLine/"
-          "CantileverFreeBeam/Custom/FunctionBased mobilizers, float rounding."),
+          "CantileverFreeBeam/Custom mobilizers, the H formulas of FunctionBased mobilizers, float rounding. ADDED (back end A, CBMC, loop-free full-domain harnesses on "
+          "the nine cut member functions of MobilizedBody::FunctionBasedImpl, MobilizedBodyImpl.h): the hand-managed lazy H / HDot cache of FunctionBased mobilizers -- "
+          "for nu = 1..6 and every history of one State, realizeTopology/realizePosition/realizeVelocity/updateH/updateHdot/multiplyByH[Dot]Matrix/Transpose keep the "
+          "invariant 'a valid H was built from the current q, a valid HDot from the current q and u', so the H used for V_FM = H u at stage >= Position is the one of "
+          "the configuration at hand (values abstracted to version tags; buildH/buildHdot abstract)."),
     note=("Assumes real arithmetic; trusts z3/cvc5, the transliterator + plumbing rule table (logged per function), the symlib Vec/Mat shim and the Node/Transform/HType "
-          "plumbing shim of checks/mobilizerlib.py (state-cache accessors hand back what the realize sequence stored). Level 'other': a per-node kernel, the tree induction is not machine checked."),
-    technique="symbolic execution of transliterated real code over the reals + SMT (z3 QF_NRA), dual numbers for d/dt, abstract reversal lemma",
+          "plumbing shim of checks/mobilizerlib.py (state-cache accessors hand back what the realize sequence stored); for the FunctionBased cache unit the State/Value cache access, "
+          "getQ/getU/getMobilizerTransform and Custom's realize sequence are assumed contracts (listed in the evidence). Level 'other': a per-node kernel, the tree induction is not machine checked."),
+    technique="symbolic execution of transliterated real code over the reals + SMT (z3 QF_NRA), dual numbers for d/dt, abstract reversal lemma; CBMC 6.11 (SAT) full-domain harnesses with a class invariant on the cut FunctionBasedImpl cache functions",
     design_ref="5 C03 (partial kernel added)")
 
 SCENARIOS = [("Pin", None), ("Slider", None), ("Screw", None), ("Cylinder", None), ("Universal", None), ("BendStretch", None), ("Planar", None),
@@ -186,6 +191,11 @@ def main(ctx):
         except (ExtractionError, AssertionError, TypeError, AttributeError) as e:
             ctx.undecide("generic reversal lemma: %r" % (e,))
     ctx.units.append(dict(unit="mob.*", backend="z3 QF_NRA", obligations=len(ctx.obligations)))
+    rep_fb = None
+    if not only or re.search(only, "fb."):
+        import part_c03_fb
+        rep_fb = part_c03_fb.run(ctx)          # back end A: the lazy H / HDot cache of FunctionBased mobilizers (added after seed C03-m2 was missed)
+    ctx._rep_fb = rep_fb
     ctx.checker_cmds.append("z3 (python API, QF_NRA, 20 s/obligation); SMT-LIB files in out/C03/smt2; cvc5 re-check in thorough tier")
     ctx.trust("z3 4.x / cvc5 1.0 (QF_NRA)")
     ctx.trust("tools/translit.py rule table + checks/mobilizerlib.py plumbing rules (per-function log in extraction_report.json), tools/symlib.py Vec/Mat shim")
@@ -200,7 +210,7 @@ def main(ctx):
                         "SimbodyMatterSubsystem-level multiplyByN/NInv/NDot assembly over all mobilizers", "float rounding; behaviour at cos(q1)=0 and |quat|=0",
                         "finite-difference form of the statement (the check proves the exact derivative instead)"]
     ctx.explanation = "%d functions transliterated; %d obligations over %d mobilizer scenarios (forward + reversed)." % (len(ctx.functions), len(ctx.obligations), len(SCENARIOS))
-    return ctx.finish(replayer=lambda ob: replay(ctx, ob))
+    return ctx.finish(replayer=lambda ob: (ctx._rep_fb(ob) if ((ob.unit or "").startswith("fb.") and ctx._rep_fb) else replay(ctx, ob)))
 
 
 _EXE = {}
